@@ -111,17 +111,50 @@ def counters(ctx):
             continue
         rd = [o for o in v.d.instances.values() if o.cls == "LiteDRAMNativePortECCR"]
         src = key(rd[0].attrs[kind]) if rd else "?"
+        other_src = key(rd[0].attrs["ded" if kind == "sec" else "sec"]) if rd else "?"
         for what, l in (("increment", incs[0]), ("flag", sets[0])):
-            g = v.guard_keys(l, False)
+            # an event flag that is registered first (counted one cycle later) stands for the condition it was loaded with
+            lits = []
+            for a_, p_ in v.guard_lits(l, False):
+                ds_ = v.drivers(a_) if isinstance(a_, Obj) else []
+                if p_ and isinstance(a_, Obj) and a_.cls == "Signal" and len(ds_) == 1 and ds_[0].domain.startswith("sync") and not ds_[0].guards and isinstance(ds_[0].value, V):
+                    lits.extend(conj(ds_[0].value))
+                else:
+                    lits.append((a_, p_))
+            g = litset(lits)
             exp_core = {"~" + clear, src}
             sat = {k for k in g if cnt in k and k not in exp_core}
             extra = g - exp_core - sat
             ob.instance("%s %s guard" % (kind, what), sorted(g))
             if not exp_core <= g:
-                ob.refute("%s-%s-guard" % (kind, what), "%s %s happens under %s, which lacks %s" % (kind, what, sorted(g), sorted(exp_core - g)), l.loc)
-            if extra:
+                if any(k_.startswith("trunc(" + src) for k_ in g):
+                    pass
+                elif src not in g and any(src in support(a_) for a_, _ in lits):
+                    ob.unknown("%s %s happens under %s: the %s flags are tested in a form this rule does not read" % (kind, what, sorted(g), kind))
+                else:
+                    ob.refute("%s-%s-guard" % (kind, what), "%s %s happens under %s, which lacks %s" % (kind, what, sorted(g), sorted(exp_core - g)), l.loc)
+            trunc_ = sorted(k_ for k_ in g if k_.startswith("trunc(" + src))
+            if trunc_:
+                ob.refute("%s-%s-guard" % (kind, what), "%s %s tests %s: the per-lane flag vector is cut down to its low bit(s), so errors in the other lanes are never counted" %
+                          (kind, what, trunc_), l.loc)
+                continue
+            edge_ = []
+            for a_, p_ in lits:
+                ds_ = v.drivers(a_) if isinstance(a_, Obj) else []
+                if (not p_) and ds_ and all(d_.domain.startswith("sync") for d_ in ds_) and any(isinstance(d_.value, V) and src in support(d_.value) for d_ in ds_):
+                    edge_.append(lkey((a_, p_)))
+            if edge_:
+                ob.refute("%s-%s-masked" % (kind, what), "%s %s additionally requires %s, a register loaded from the %s flags themselves: only the first of several consecutive "
+                          "erroneous beats is counted" % (kind, what, edge_, kind), l.loc)
+                continue
+            masking = sorted(k_ for k_ in extra if other_src in k_)
+            benign_ = sorted(k_ for k_ in extra if k_ not in masking and k_.lstrip("~").rsplit(".", 1)[-1] in ("valid", "ready"))
+            rest = sorted(set(extra) - set(masking) - set(benign_))
+            if masking:
                 ob.refute("%s-%s-masked" % (kind, what), "%s %s additionally requires %s: a beat in which another lane reports the other kind of error is "
-                          "not counted (e.g. a corrected error in lane i hides an uncorrectable error in lane j)" % (kind, what, sorted(extra)), l.loc)
+                          "not counted (e.g. a corrected error in lane i hides an uncorrectable error in lane j)" % (kind, what, masking), l.loc)
+            elif rest:
+                ob.unknown("%s %s additionally requires %s: whether every error event is still counted is not decided" % (kind, what, rest))
             if what == "increment" and not lin_eq(l.value, Op("+", (l.target, Const(1)))):
                 ob.refute("%s-step" % kind, "%s counter is updated to %s, expected +1" % (kind, key(l.value)), l.loc)
         if len(clrs) != 2 or any(v.guard_keys(c, False) != {clear} for c in clrs):
